@@ -99,4 +99,9 @@ def unwrapPreFix (len : Nat) : Outcome Nat :=
     (makeChk ((len / 8 : Nat) - 1 : Int)).bind fun n =>
       (forRange (fun _ => forRange (unwrapBody n) n 1) 6 0).bind fun _ => arrConcat (List.replicate n 8)
 
+/-- `aesCBCAEAD.hmacTag`: `al := make([]byte, 8); PutUint64(al, …); … return h.Sum(nil)[:l]` with a hash
+of `hashLen` bytes -/
+def hmacTag (l hashLen : Nat) : Outcome Unit :=
+  (makeChk 8).bind fun al => (putUint64 al).bind fun _ => sliceChk hashLen 0 (l : Nat)
+
 end Kit.NoPanic.KW
